@@ -10,7 +10,7 @@ structure, error enums).  `str.split("   ")` vs the model's `split3` on random s
 Monitor (independent of the model): an oracle list of the recorded (x, y, id) triples is maintained by the
 harness from the *inputs* (calls append, slices/indices select, + / extend / prepend concatenate) and the
 property is evaluated on what the real objects / files give back."""
-import os, sys, io, time, math, shutil, tempfile, contextlib, json, struct, importlib, subprocess
+import os, sys, io, re, time, math, shutil, tempfile, contextlib, json, struct, importlib, subprocess
 import numpy as np
 import common
 from common import case_rng, f2b, b2f, parse_reply, dyadic
@@ -37,6 +37,37 @@ THEOREMS = [
     "MysticVerif.C20.converge_roundtrip",
     "MysticVerif.C20.raw_file_spec",
     "MysticVerif.C20.support_cost_spec",
+    # views (Props/C20Views.lean, Model/MonitorViews.lean)
+    "MysticVerif.C20.views_spec",
+    "MysticVerif.C20.tuple_record_spec",
+    "MysticVerif.C20.tuple_rows_spec",
+    "MysticVerif.C20.tuple_column_spec",
+    "MysticVerif.C20.tuple_list_spec",
+    "MysticVerif.C20.tuple_record_bounds",
+    "MysticVerif.C20.cmon_field_spec",
+    "MysticVerif.C20.cmon_required_field",
+    "MysticVerif.C20.logOfB_all",
+    "MysticVerif.C20.log_best_spec",
+    "MysticVerif.C20.verb_interval_spec",
+    "MysticVerif.C20.ipos_uniform_partial",
+    "MysticVerif.C20.ipos_nonuniform_witness",
+    "MysticVerif.C20.wts_pos_partition",
+    # aliasing (Props/C20Heap.lean, Model/MonitorHeap.lean)
+    "MysticVerif.C20.store_frame",
+    "MysticVerif.C20.alloc_spec",
+    "MysticVerif.C20.heap_call_spec",
+    "MysticVerif.C20.heap_calls_invisible",
+    "MysticVerif.C20.heap_extend_spec",
+    "MysticVerif.C20.heap_add_spec",
+    "MysticVerif.C20.heap_slice_spec",
+    "MysticVerif.C20.heap_fancy_spec",
+    "MysticVerif.C20.heap_handover_spec",
+    # file formats (Props/C20Files.lean, Model/MungeFormats.lean)
+    "MysticVerif.C20.raw_to_converge_flat",
+    "MysticVerif.C20.raw_to_converge_first",
+    "MysticVerif.C20.support_ragged_witness",
+    "MysticVerif.C20.process_ids_tuples",
+    "MysticVerif.C20.log_gaps_spec",
 ]
 
 NREG = 4
@@ -54,9 +85,13 @@ KEY_D2 = "%s/numpy-scalar-repr-unreadable"
 KEY_D3 = "Monitor.__call__/0d-array-cost-with-k/raises"
 KEY_D4 = "%s/first-cost-numpy-others-python/raises"
 KEY_K5 = "munge.read_import/second-directory-in-one-process/module-not-found"
+KEY_POS = "Monitor.wts-pos/non-uniform-npts/wrong-columns"
+KEY_CM = "CustomMonitor.__call__/stores-caller-buffer-by-reference"
+KEY_NPTS = "LoggingMonitor.__add__/npts-dropped-by-__reduce__"
+KEY_RAG = "write_support_file/records-of-different-dimension/truncated-to-the-shortest"
 
 
-KNOWN_KEYS = {KEY_F13, KEY_F13U, KEY_D3, KEY_K5} | {k % w for k in (KEY_D1, KEY_D2, KEY_D4)
+KNOWN_KEYS = {KEY_F13, KEY_F13U, KEY_D3, KEY_K5, KEY_POS, KEY_CM, KEY_NPTS, KEY_RAG} | {k % w for k in (KEY_D1, KEY_D2, KEY_D4)
                                                     for w in ("write_raw_file", "write_support_file", "write_converge_file", "read_history(monitor)")}
 
 
@@ -143,6 +178,46 @@ def ktok(k):
 
 def idtok(i):
     return "none" if i is None else str(int(i))
+
+
+def nest_tok(v, leaf):
+    """a nested python list (what ndarray.tolist() returns) as a token tree; `leaf` converts the scalars"""
+    if isinstance(v, (list, tuple)) or (isinstance(v, np.ndarray) and v.ndim > 0):
+        return [nest_tok(u, leaf) for u in v]
+    return leaf(v)
+
+
+def ftok(v):
+    if v is None or isinstance(v, (str, bool)):
+        raise Unsupported(repr(v))
+    return f2b(float(v))
+
+
+def scale_tok(t, k):
+    """every float leaf of a PV token multiplied by k (what `Monitor._k` stores)"""
+    if isinstance(t, str):
+        return f2b(b2f(t) * k) if is_ftok(t) else t
+    return [scale_tok(u, k) for u in t]
+
+
+def shown_val(v, allf, best):
+    """what a logging / verbose monitor shows of an argument: all of it, or entry `best` of a sequence"""
+    if allf or not is_seq(v):
+        return v
+    return list(v)[best]
+
+
+EV_RE = re.compile(r"(?:\[id: (-?\d+|None)\] )?Generation (\d+) has( best)? (ChiSquare|fit parameters):(?: |\n )([^\n]*)")
+
+
+def parse_events(text):
+    evs = []
+    for mt in EV_RE.finditer(text):
+        idv = None if mt.group(1) in (None, "None") else int(mt.group(1))
+        val = eval(mt.group(5), {"inf": INF, "nan": NAN, "np": np})
+        evs.append(["x" if mt.group(4) != "ChiSquare" else "y", str(int(mt.group(2))), idtok(idv),
+                    "true" if mt.group(3) else "false", pv_of(val)])
+    return evs
 
 
 def kexact(k):
@@ -249,6 +324,7 @@ class Case:
         self.iv = [None] * NREG          # logging interval (None: not logging / never)
         self.cls = ["Monitor"] * NREG
         self.last = ["new"] * NREG
+        self.opt = [dict(all=True, yint=None, xint=None, npts=None) for _ in range(NREG)]   # constructor options
         self.ops = []                    # model ops (s-expression strings)
         self.expect = []                 # token trees of the implementation's results
         self.readable = []               # human-readable op log for replays
@@ -263,6 +339,7 @@ class Case:
         self.kpool = rng.choice(["none", "exact", "exact", "mixed"])
         self.numpy_ok = rng.random() < 0.5
         self.nops = nops
+        self.rect_only = rng.random() < 0.45      # every record a flat vector of one dimension (tuple indices, measure views)
 
     # -------------------------------------------------- helpers
     def h(self, key, n=1):
@@ -354,38 +431,91 @@ class Case:
         k = self.gen_k()
         kw = {} if k is None else {"k": k}
         iv = None
+        opt = dict(all=True, yint=None, xint=None, npts=None)
+        if rng.random() < 0.3:
+            opt["npts"] = self.gen_npts()
+            kw["npts"] = opt["npts"]
+        if cls != "Monitor" and rng.random() < 0.35:
+            opt["all"] = False
+            kw["all"] = False
         with quiet():
             if cls == "Monitor":
                 m = Monitor(**kw)
             elif cls == "VerboseMonitor":
-                m = VerboseMonitor(rng.choice([1, 2, 10]), rng.choice([1, 3, np.inf]), **kw)
+                yi, xi = rng.choice([1, 2, 3, 10, 0, None]), rng.choice([1, 3, np.inf, 0, 2])
+                m = VerboseMonitor(yi, xi, **kw)
+                opt["yint"], opt["xint"] = yi, xi
             else:
                 iv = rng.choice([1, 1, 1, 2, 3, 5, 0, None])
                 if cls == "LoggingMonitor":
                     m = LoggingMonitor(iv, self.logpath, **kw)
                 else:
-                    m = VerboseLoggingMonitor(iv, rng.choice([1, 10]), rng.choice([2, np.inf]), self.logpath, **kw)
+                    yi, xi = rng.choice([1, 2, 10, None]), rng.choice([2, np.inf, 1, 0])
+                    m = VerboseLoggingMonitor(iv, yi, xi, self.logpath, **kw)
+                    opt["yint"], opt["xint"] = yi, xi
+        for key in ("yint", "xint"):                  # falsy / inf = never
+            if not opt[key] or opt[key] == np.inf:
+                opt[key] = None
         self.regs[r] = m; self.recs[r] = []; self.kk[r] = k; self.iv[r] = iv if iv else None
-        self.cls[r] = cls; self.last[r] = "new"
+        self.cls[r] = cls; self.last[r] = "new"; self.opt[r] = opt
         ltok = "nolog" if cls in ("Monitor", "VerboseMonitor") else str(int(iv or 0))
         self.emit("(new %d %s %s)" % (r, ktok(k), ltok), "u", "r%d = %s(k=%r, interval=%r)" % (r, cls, k, iv))
         self.h("new:" + cls)
+        if not opt["all"]:
+            self.h("new:all=False")
+        if opt["npts"] is not None:
+            self.h("new:npts")
+
+    def gen_npts(self):
+        rng = self.rng
+        dim = self.dim
+        kind = rng.choice(["uniform", "uniform", "uniform", "nonuniform", "odd"])
+        if kind == "uniform":
+            cands = [(n0,) * d for d in (1, 2, 3) for n0 in (1, 2, 3) if 2 * n0 * d == dim]
+            if cands:
+                return rng.choice(cands)
+            kind = "odd"
+        if kind == "nonuniform":
+            return rng.choice([(1, 2), (2, 1), (2, 3), (1, 1, 2), (2, 4), (0, 2)])
+        return rng.choice([(), (0,), (1,), (2,), (1, 1), (0, 0), (3,), (2, 2)])
 
     def op_call(self, r):
         rng = self.rng
-        m = self.regs[r]; k = self.kk[r]
+        m = self.regs[r]; k = self.kk[r]; o = self.opt[r]
         x, xform = gen_x(rng, self.dim, self.numpy_ok)
-        y, yform = gen_y(rng, self.vector_costs, self.numpy_ok)
+        while self.rect_only and xform not in ("list", "tuple", "ndarray", "ints", "npscalars"):
+            x, xform = gen_x(rng, self.dim, self.numpy_ok)
+        if self.rect_only and len(x) != self.dim:
+            x = [dyadic(rng, -8, 8, 8) for _ in range(self.dim)]
+        y, yform = gen_y(rng, self.vector_costs or (not o["all"] and rng.random() < 0.5), self.numpy_ok)
+        if yform == "zerod" and not o["all"]:
+            y, yform = float(y), "float"      # a 0-d array "is a sequence" for all=False and cannot be indexed: not generated
         i = None if rng.random() < 0.6 else rng.randint(0, 3)
         n0 = len(self.recs[r])
         size0 = os.path.getsize(self.logpath) if os.path.exists(self.logpath) else 0
-        desc = "r%d(%r, %r, id=%r)" % (r, x, y, i)
+        verbose = self.cls[r] != "Monitor"
+        best, kflag = 0, False
+        if verbose and rng.random() < 0.5:
+            best = rng.choice([0, 1, 1, -1, 2, -2, -3, self.dim, self.dim - 1])
+            kflag = rng.random() < 0.25
+        desc = "r%d(%r, %r, id=%r%s)" % (r, x, y, i, ", best=%r, k=%r" % (best, kflag) if verbose else "")
+        out = io.StringIO()
+        raised = None
         try:
-            with quiet():
-                if i is None and rng.random() < 0.5:
+            with contextlib.redirect_stdout(out):
+                if verbose and (best != 0 or kflag or rng.random() < 0.3):
+                    m(x, y, i, best, kflag) if rng.random() < 0.5 else m(x, y, id=i, best=best, k=kflag)
+                elif i is None and rng.random() < 0.5:
                     m(x, y)
                 else:
                     m(x, y, i) if rng.random() < 0.5 else m(x, y, id=i)
+        except IndexError as exc:
+            if not verbose or o["all"]:
+                self.find("monitor", "Monitor.__call__/raises/x-%s/y-%s" % (xform, yform), "%s raised %r" % (desc, exc))
+                self.readable.append(desc + "  -> raised; case abandoned")
+                self.dead = True
+                return
+            raised = exc
         except Exception as exc:
             if yform == "zerod" and k is not None and isinstance(exc, TypeError):
                 self.find("monitor", KEY_D3, "%s on a monitor with k=%r raised %r and left len(x)=%d, len(y)=%d"
@@ -400,6 +530,20 @@ class Case:
         rc = {"x": tx, "y": ty, "id": i, "krounds": not kexact(k), "exact": kexact(k) and (k is None or yrange_ok(ty))}
         self.recs[r].append(rc)
         self.last[r] = "call"
+        # what the log line / the printed lines must show (computed from the ARGUMENTS, not from the monitor)
+        allf = o["all"]
+        shown = {"x": None, "y": None, "exact": rc["exact"], "id": i}
+        try:
+            shown["y"] = pv_of(shown_val(y, allf, best))
+            if kflag and k is not None:
+                shown["y"] = scale_tok(shown["y"], k); shown["exact"] = True
+        except IndexError:
+            pass
+        try:
+            shown["x"] = pv_of(shown_val(x, allf, best))
+        except IndexError:
+            pass
+        shown_ok = shown["x"] is not None and shown["y"] is not None
         # aliasing probe: the caller re-uses its buffers after the call; the record must not follow
         for buf in (x, y):
             try:
@@ -413,11 +557,54 @@ class Case:
                 pass
         wrote = size1 > size0
         want = bool(self.iv[r]) and n0 % self.iv[r] == 0
-        if wrote != want:
+        if wrote != (want and shown_ok):
             self.find("monitor", "LoggingMonitor/interval", "%s: interval=%r, %d records before the call, line written=%r" % (desc, self.iv[r], n0, wrote))
-        self.emit("(call %d %s %s %s)" % (r, tstr(tx), tstr(ty), idtok(i)), "u", desc)
+        if not verbose:
+            self.emit("(call %d %s %s %s)" % (r, tstr(tx), tstr(ty), idtok(i)), "u", desc)
+        else:
+            due_y = bool(o["yint"]) and n0 % o["yint"] == 0
+            due_x = bool(o["xint"]) and n0 % o["xint"] == 0
+            try:
+                evs = parse_events(out.getvalue())
+            except Exception as exc:
+                self.find("monitor", "VerboseMonitor/output-unreadable", "%s printed %r (%r)" % (desc, out.getvalue()[:200], exc))
+                evs = []
+            if raised is not None:
+                # the record is appended before anything is shown; who raised follows from what was written / printed
+                if not ((shown["y"] is None and (want or due_y)) or (shown["x"] is None and (want or due_x))):
+                    self.find("monitor", "LoggingMonitor.__call__/all=False/raises", "%s raised %r" % (desc, raised))
+                if want and not wrote:
+                    exp = ["cv", ["e", "index"], "none"]
+                else:
+                    exp = ["cv", "u", ["e", "index"]]
+                self.h("callv:IndexError")
+            else:
+                exp = ["cv", "u", evs]
+                wantev = []
+                if (shown["y"] is None and (want or due_y)) or (shown["x"] is None and (want or due_x)):
+                    self.find("monitor", "LoggingMonitor.__call__/all=False/no-IndexError", "%s: best=%r is out of range but nothing was raised" % (desc, best))
+                else:
+                    if due_y:
+                        wantev.append(["y", str(n0), idtok(i), "true" if (not allf and is_seq(y)) else "false", shown["y"]])
+                    if due_x:
+                        wantev.append(["x", str(n0), idtok(i), "true" if (not allf and is_seq(x)) else "false", shown["x"]])
+                if (len(evs) != len(wantev) or not all(
+                        a[:4] == b[:4] and (same_tok(a[4], b[4]) or (a[0] == "y" and not shown["exact"] and close_tok(a[4], b[4])))
+                        for a, b in zip(evs, wantev))):
+                    self.find("monitor", "VerboseMonitor/printed-lines-wrong",
+                              "%s (all=%r, yinterval=%r, xinterval=%r, %d records before): printed %s, expected %s"
+                              % (desc, allf, o["yint"], o["xint"], n0, show(evs), show(wantev)))
+                self.h("callv:printed", len(evs))
+            self.emit("(callv %d %s %s %s %s %d %s %s %s)" % (r, tstr(tx), tstr(ty), idtok(i), "true" if allf else "false", best,
+                                                           "true" if kflag else "false", str(o["yint"] or "none"), str(o["xint"] or "none")),
+                      exp, desc)
+            self.h("callv:all=%s" % allf)
+            if best != 0:
+                self.h("callv:best!=0")
+            if kflag:
+                self.h("callv:k=True")
         if wrote:
-            self.wslots.append((len(self.expect) - 1, rc, n0, i))
+            self.wslots.append((len(self.expect) - 1, shown if shown_ok else dict(rc), n0, i, verbose))
         self.h("call:x-" + xform); self.h("call:y-" + yform)
         if k is not None:
             self.h("call:k-exact" if kexact(k) else "call:k-rounding")
@@ -469,7 +656,7 @@ class Case:
     def derive(self, d, r, res, rcs, opname):
         old = self.regs[r]
         self.regs[d] = res; self.recs[d] = rcs; self.kk[d] = self.kk[r]; self.iv[d] = self.iv[r]
-        self.cls[d] = self.cls[r]; self.last[d] = opname
+        self.cls[d] = self.cls[r]; self.last[d] = opname; self.opt[d] = dict(self.opt[r])
         return old
 
     def op_slice(self, d, r):
@@ -558,6 +745,10 @@ class Case:
         self.h("alias:add-shares-entries-of-right-operand", int(any(p is q for p in res.x for q in mb.x if isinstance(p, list))))
         self.h("alias:add-shares-entries-of-left-operand", int(any(p is q for p in res.x for q in ma.x if isinstance(p, list))))
         self.derive(d, a, res, rcs, "add")
+        if self.opt[d]["npts"] is not None and res._npts is None and self.cls[d] in ("LoggingMonitor", "VerboseLoggingMonitor"):
+            # the deep copy of a logging monitor goes through __reduce__, whose state has no `_npts`
+            self.find("monitor", KEY_NPTS, "%s: the left operand was built with npts=%r, the sum has npts=None" % (desc, self.opt[d]["npts"]))
+            self.opt[d]["npts"] = None
         self.emit("(add %d %d %d)" % (d, a, b), "u", desc)
         if not same_tok(ba, self.snapshot(ma)):
             self.find("monitor", "Monitor.__add__/alters-left-operand", desc + " changed its left operand")
@@ -581,6 +772,154 @@ class Case:
         self.h("%s:k-%s" % (name, kclass(self.kk[a], self.kk[b])))
         self.h("%s:%s" % (name, "empty-arg" if not mv else "nonempty-arg"))
         self.check_reg(a, desc)
+
+    # -------------------------------------------------- tuple indices, accessor views, measure views
+    def gen_sel(self, L, zero_ok=False):
+        """one component of a tuple index for an axis of length L: (token, python object)"""
+        rng = self.rng
+        kind = rng.choice(["int", "slice", "slice", "slice", "list", "list", "tup"])
+        if kind == "int":
+            i = rng.randint(-L - 1, L)
+            return "(i %d)" % i, (np.int64(i) if rng.random() < 0.2 else i), kind
+        if kind == "slice":
+            def b():
+                return None if rng.random() < 0.45 else rng.randint(-L - 2, L + 2)
+            s_, e_ = b(), b(); t = rng.choice([None, None, None, 1, 2, -1, -2, 3])
+            return "(s %s %s %d)" % (idtok(s_), idtok(e_), t or 1), slice(s_, e_, t), kind
+        cnt = rng.choice([0, 1, 1, 2, 2, 3])
+        items = [rng.randint(-L, L - 1) if L else 0 for _ in range(cnt)]
+        if cnt and rng.random() < 0.12:
+            items[rng.randrange(cnt)] = rng.choice([L, -L - 1, L + 2])
+        if kind == "list":
+            obj = np.array(items, dtype=int) if rng.random() < 0.3 else list(items)
+            return "(l %s)" % " ".join(str(v) for v in items), obj, kind
+        return "(p %s)" % " ".join(str(v) for v in items), tuple(items), kind
+
+    def op_tidx(self, r):
+        rng = self.rng
+        m = self.regs[r]; recs = self.recs[r]; n = len(recs)
+        shapes = {rc["x"][0] for rc in recs}
+        dimx = (len(recs[0]["x"]) - 1) if recs and recs[0]["x"][0] == "v" else self.dim
+        nn = rng.choice([1, 2, 2, 2, 2, 2, 3, 0])
+        if "m" in shapes and nn == 3:
+            nn = 2                                # a 3-tuple on 3-d parameters is outside the model
+        comps = [self.gen_sel(n if a == 0 else dimx) for a in range(nn)]
+        zero = bool(nn) and rng.random() < 0.04
+        if zero:                                  # a zero step, everything else valid: the ValueError is the only error
+            comps = [("(s none none 1)", slice(None), "slice") for _ in range(nn)]
+            comps[rng.randrange(nn)] = ("(s none none 0)", slice(None, None, 0), "slice")
+        idx = tuple(c[1] for c in comps)
+        before = self.snapshot(m)
+        desc = "r%d[%r]" % (r, idx)
+        res = None
+        try:
+            with quiet():
+                res = m[idx]
+            exp = ["t", nest_tok(res.x, ftok), nest_tok(res.y, ftok), nest_tok(res.id, idtok)]
+        except IndexError:
+            exp = ["e", "index"]
+        except ValueError:
+            exp = ["e", "value"]
+        except AttributeError:
+            exp = ["e", "attr"]
+        self.emit("(tidx %d (%s))" % (r, " ".join(c[0] for c in comps)), exp, desc + " -> " + show(exp))
+        self.h("tidx:%s" % (exp[1] if exp[0] == "e" else "ok"))
+        self.h("tidx:len%d:%s" % (nn, "+".join(c[2] for c in comps[:2])))
+        if not same_tok(before, self.snapshot(m)):
+            self.find("monitor", "Monitor.__getitem__/tuple/alters-argument", desc + " changed the indexed monitor")
+        # the property, evaluated from the oracle: rows selected by the first component, columns by the second
+        kinds = [c[2] for c in comps]
+        rect = n > 0 and shapes == {"v"} and len({len(rc["x"]) for rc in recs}) == 1 and all(rc["y"][0] == "s" for rc in recs)
+        paired = nn == 2 and kinds[0] in ("list", "tup") and kinds[1] in ("list", "tup")
+        if rect and not zero and nn in (1, 2) and kinds[0] in ("slice", "list") and not paired and (nn == 1 or kinds[1] != "tup"):
+            def inr(j, L):
+                return -L <= int(j) < L
+            a = idx[0]
+            want = None
+            if isinstance(a, slice):
+                rows = recs[a]
+            else:
+                rows = [recs[int(j)] for j in a] if all(inr(j, n) for j in a) else None
+            if rows is not None:
+                if nn == 1:
+                    want = [rc["x"] for rc in rows]
+                elif kinds[1] == "int":
+                    if inr(idx[1], dimx):
+                        want = [["s", rc["x"][1:][int(idx[1])]] for rc in rows]
+                elif kinds[1] == "slice":
+                    want = [["v"] + rc["x"][1:][idx[1]] for rc in rows]
+                elif all(inr(j, dimx) for j in idx[1]):
+                    want = [["v"] + [rc["x"][1:][int(j)] for j in idx[1]] for rc in rows]
+            if (want is None) != (exp == ["e", "index"]):
+                self.find("monitor", "Monitor.__getitem__/tuple/bounds", "%s on %d records of dimension %d gave %s" % (desc, n, dimx, show(exp)))
+            elif want is not None:
+                gotx = [pv_of(v) for v in res.x] if isinstance(res.x, list) else None
+                if gotx is None or not same_tok(gotx, want):
+                    self.find("monitor", "Monitor.__getitem__/tuple/x-not-the-projection", "%s: parameters %s, the recorded rows/columns are %s" % (desc, show(exp[1]), show(want)))
+                if list(res.id) != [rc["id"] for rc in rows]:
+                    self.find("monitor", "Monitor.__getitem__/tuple/id-wrong", "%s: ids %r, recorded %r" % (desc, res.id, [rc["id"] for rc in rows]))
+                ys = res.y
+                if len(ys) != len(rows) or any(not same_tok(pv_of(v), rc["y"]) and (rc["exact"] or not close_tok(pv_of(v), rc["y"])) for v, rc in zip(ys, rows)):
+                    self.find("monitor", "Monitor.__getitem__/tuple/y-wrong", "%s: costs %r, recorded %s" % (desc, ys, show([rc["y"] for rc in rows])))
+                self.h("tidx:oracle-checked")
+
+    def op_views(self, r):
+        m = self.regs[r]
+        def arr(f):
+            try:
+                return [pv_of(v) for v in f().tolist()]
+            except ValueError:
+                return ["e", "value"]
+        gx = [pv_of(v) for v in m.get_x()]; gy = [pv_of(v) for v in m.get_y()]
+        exp = ["vw", gx, arr(lambda: m.ax), gy, arr(lambda: m.ay), [idtok(i) for i in m.get_id()],
+               [s[3:] if s.startswith("msg") else s for s in m.get_info()]]
+        self.emit("(views %d)" % r, exp, "views of r%d" % r)
+        self.h("views:" + ("ragged" if exp[2] == ["e", "value"] or exp[4] == ["e", "value"] else "ok"))
+        # the iterator variants and the properties are the same projections
+        if not same_tok([pv_of(v) for v in m.ix], gx) or not same_tok([pv_of(v) for v in m.x], gx):
+            self.find("monitor", "Monitor.ix/differs-from-get_x", "views of r%d" % r)
+        if not same_tok([pv_of(v) for v in m.iy], gy) or not same_tok([pv_of(v) for v in m.y], gy):
+            self.find("monitor", "Monitor.iy/differs-from-get_y", "views of r%d" % r)
+        if list(m.id) != list(m.get_id()):
+            self.find("monitor", "Monitor.id/differs-from-get_id", "views of r%d" % r)
+        self.check_reg(r, "views of r%d" % r)
+
+    def op_mview(self, r):
+        m = self.regs[r]; npts = self.opt[r]["npts"]; recs = self.recs[r]
+        if any(rc["x"][0] == "m" for rc in recs):
+            return                                # `[:, cols]` on 3-d parameters selects matrix rows: outside the model
+        if m._npts != npts:
+            self.find("monitor", "Monitor._npts/lost", "r%d was built with npts=%r, now has %r (after %s)" % (r, npts, m._npts, self.last[r]))
+            return
+        def view(name):
+            try:
+                v = getattr(m, name)
+                return "none" if v is None else nest_tok(v, ftok)
+            except IndexError:
+                return ["e", "index"]
+            except ValueError:
+                return ["e", "value"]
+        exp = ["mv", view("wts"), view("pos")]
+        self.emit("(mview %d %s)" % (r, "none" if npts is None else "(%s)" % " ".join(str(v) for v in npts)), exp,
+                  "r%d.wts, r%d.pos (npts=%r) -> %s" % (r, r, npts, show(exp)))
+        self.h("mview:" + ("none" if npts is None else "err" if isinstance(exp[1], list) and exp[1][:1] == ["e"] else "ok"))
+        # the property: for a trajectory laid out like product_measure.flatten ([w_0.., x_0.., w_1.., x_1.., ...]) the
+        # two views are the weight / position blocks of every record
+        if npts and recs and all(rc["x"][0] == "v" and len(rc["x"]) - 1 == 2 * sum(npts) for rc in recs):
+            ww, pp = [], []
+            for rc in recs:
+                v = rc["x"][1:]; off = 0; w1, p1 = [], []
+                for nn_ in npts:
+                    w1.append(v[off:off + nn_]); p1.append(v[off + nn_:off + 2 * nn_]); off += 2 * nn_
+                ww.append(w1); pp.append(p1)
+            if not (same_tok(exp[1], ww) and same_tok(exp[2], pp)):
+                if len(set(npts)) > 1:
+                    self.find("monitor", KEY_POS, "Monitor(npts=%r): wts=%s pos=%s, the weight / position blocks of the records are %s / %s"
+                              % (npts, show(exp[1]), show(exp[2]), show(ww), show(pp)))
+                else:
+                    self.find("monitor", "Monitor.wts-pos/not-the-blocks", "Monitor(npts=%r): wts=%s pos=%s, the blocks are %s / %s"
+                              % (npts, show(exp[1]), show(exp[2]), show(ww), show(pp)))
+            self.h("mview:oracle-checked")
 
     def op_null(self, a):
         """extend/prepend with Null / a non-monitor: implementation-only (no model op)"""
@@ -734,6 +1073,26 @@ class Case:
                     if not okshape or not same_tok(dec, [rc["x"] for rc in rec]):
                         self.find("monitor", "%s/trajectory-wrong" % writer, "read back %r, recorded %s" % (params, show([rc["x"] for rc in rec])))
                     self.h("files:%s:decoded" % opname)
+                elif rec:
+                    # records of different dimension: the converge format keeps every step; the support format is a
+                    # transposition (zip) and keeps only the first min(dimension) parameters of every record
+                    wantx = [rc["x"] for rc in rec]
+                    try:
+                        if opname == "wconv":
+                            dec = [["v"] + [f2b(float(c[0])) for c in row] for row in params]
+                            if not same_tok(dec, wantx):
+                                self.find("monitor", "%s/trajectory-wrong" % writer, "read back %r, recorded %s" % (params, show(wantx)))
+                        else:
+                            dmin = min(len(v) - 1 for v in wantx)
+                            dec = [["v"] + [f2b(float(params[j][i][0])) for j in range(len(params))] for i in range(len(rec))]
+                            if len(params) != dmin or not same_tok(dec, [v[:dmin + 1] for v in wantx]):
+                                self.find("monitor", "%s/trajectory-wrong" % writer, "read back %r, recorded %s" % (params, show(wantx)))
+                            else:
+                                self.find("monitor", KEY_RAG, "%s of records with dimensions %r: only the first %d parameter(s) of every record are in the file"
+                                          % (writer, [len(v) - 1 for v in wantx], dmin))
+                    except Exception as exc:
+                        self.find("monitor", "%s/trajectory-wrong" % writer, "read back %r (%r), recorded %s" % (params, exc, show(wantx)))
+                    self.h("files:%s:ragged" % opname)
                 self.cost_check(writer, r, cost, k, True)
         if not same_tok(before, self.snapshot(m)):
             self.find("monitor", "munge.write_*/alters-monitor", "writing r%d changed it" % r)
@@ -788,7 +1147,7 @@ class Case:
         if len(step) != len(self.wslots):
             self.find("monitor", "logfile/row-count", "%d rows read back, %d lines were written" % (len(step), len(self.wslots)))
             return lines
-        for (slot, rc, n0, i), st, pa, co in zip(self.wslots, step, param, cost):
+        for (slot, rc, n0, i, verbose), st, pa, co in zip(self.wslots, step, param, cost):
             try:
                 tx = pv_of(pa); ty = pv_of(co)
                 st = tuple(st)
@@ -797,7 +1156,10 @@ class Case:
             except Exception as exc:
                 self.find("monitor", "logfile/row-shape", "row %r %r %r (%r)" % (st, pa, co, exc))
                 continue
-            self.expect[slot] = ["w", stok[0], stok[1], ty, tx]
+            if verbose:
+                self.expect[slot][1] = ["w", stok[0], stok[1], ty, tx]
+            else:
+                self.expect[slot] = ["w", stok[0], stok[1], ty, tx]
             wantx = rc["x"] if rc["x"][0] != "s" else ["v", rc["x"][1]]
             if not okstep or int(st[0]) != n0 or (i is not None and st[1] != i):
                 self.find("monitor", "logfile/iteration-wrong", "row %r, written at iteration %d with id %r" % (st, n0, i))
@@ -811,7 +1173,7 @@ class Case:
             if has_numpy(pa) or has_numpy(co) or "np." in repr(pa) + repr(co):
                 self.h("log:row-numpy-repr")
         # read_history on the log file: the same rows in support format
-        rows = [rc for (_, rc, _, _) in self.wslots]
+        rows = [rc for (_, rc, _, _, _) in self.wslots]
         if rows and all(rc["x"][0] == "v" and len(rc["x"]) == len(rows[0]["x"]) and len(rc["x"]) > 1 for rc in rows):
             try:
                 with quiet():
@@ -842,7 +1204,8 @@ class Case:
             b = rng.choice(full) if rng.random() < 0.75 else rng.randrange(NREG)
             d = rng.randrange(NREG)
             kind = rng.choice(["call"] * 10 + ["len", "get", "get", "dump", "slice", "slice", "lidx", "mask", "add", "add",
-                                             "extend", "extend", "prepend", "prepend", "min", "info", "new", "null"])
+                                             "extend", "extend", "prepend", "prepend", "min", "info", "new", "null",
+                                             "tidx", "tidx", "tidx", "views", "mview", "mview"])
             try:
                 if kind == "call":
                     self.op_call(rng.choice([r, 0, 0, 1]))
@@ -872,6 +1235,12 @@ class Case:
                     self.op_new(r)
                 elif kind == "null":
                     self.op_null(r)
+                elif kind == "tidx":
+                    self.op_tidx(r)
+                elif kind == "views":
+                    self.op_views(r)
+                elif kind == "mview":
+                    self.op_mview(r)
             except Unsupported as exc:
                 self.find("monitor", "Monitor/entry-shape/op-%s" % kind, "unexpected value shape %s" % exc)
                 self.dead = True
@@ -998,6 +1367,352 @@ def gen_split_string(rng):
     return "".join(rng.choice("    a1,[](.") for _ in range(n))
 
 
+# ------------------------------------------------------------------ aliasing: heap programs (Model/MonitorHeap)
+HREG = 6      # registers 0-3: monitors; 4: the solver's generation-monitor slot; 5: its evaluation-monitor slot
+
+
+def run_hprog(rng, nops):
+    """a random program over monitor OBJECTS, replayed on real monitors and a real solver's monitor slots.
+    The oracle keeps, per object identity, the list of records it must hold: an operation may write only its
+    receiver, a result is a new identity.  At the end every register is dumped and then PROBED (one more record
+    and one info line through it): exactly the registers holding the same object may grow.
+    returns (request line, expected tokens, findings, readable, hist)"""
+    from mystic.monitors import Monitor
+    from mystic.solvers import NelderMeadSimplexSolver
+    dim = rng.choice([1, 2, 3])
+    solver = NelderMeadSimplexSolver(dim)
+    solver.SetEvaluationMonitor(Monitor())          # the slot starts as an empty Monitor (a fresh solver holds Null())
+    regs = [Monitor() for _ in range(4)] + [solver._stepmon, solver._evalmon]
+    ident = list(range(HREG)); nxt = [HREG]
+    recs = {i: [] for i in range(HREG)}; infos = {i: [] for i in range(HREG)}; kk = {i: None for i in range(HREG)}
+    ops, exp, readable, fs, hist = [], [], [], [], {}
+
+    def h(key, n=1):
+        hist[key] = hist.get(key, 0) + n
+
+    def fresh(k):
+        t = nxt[0]; nxt[0] += 1
+        recs[t] = []; infos[t] = []; kk[t] = k
+        return t
+
+    def sync():
+        regs[4] = solver._stepmon; regs[5] = solver._evalmon
+
+    def moved(rcs, ka, kb):
+        return [dict(rc) for rc in rcs]             # exact k's and dyadic costs: the value read back is unchanged
+
+    def emit(op, e, text):
+        ops.append(op); exp.append(e); readable.append(text)
+
+    def gen_call():
+        x = [dyadic(rng, -8, 8, 6) for _ in range(dim)]
+        form = rng.choice(["list", "list", "tuple", "ndarray"])
+        xo = x if form == "list" else tuple(x) if form == "tuple" else np.array(x)
+        y = dyadic(rng, -8, 8, 6)
+        i = None if rng.random() < 0.6 else rng.randint(0, 3)
+        return xo, y, i, pv_of(x), pv_of(y)
+
+    for _ in range(nops):
+        kind = rng.choice(["call"] * 8 + ["new", "slice", "slice", "lidx", "add", "add", "add", "extend", "extend", "prepend", "prepend",
+                                         "min", "get", "info", "handover", "handover", "handover", "handnull"])
+        r = rng.randrange(HREG); b = rng.randrange(HREG); d = rng.randrange(4)
+        try:
+            if kind == "call":
+                xo, y, i, tx, ty = gen_call()
+                regs[r](xo, y, i) if i is not None else regs[r](xo, y)
+                recs[ident[r]].append({"x": tx, "y": ty, "id": i})
+                emit("(call %d %s %s %s)" % (r, tstr(tx), tstr(ty), idtok(i)), "u", "r%d(%r, %r, %r)" % (r, xo, y, i))
+            elif kind == "new":
+                k = rng.choice([None, None, 2, 0.5, -1, 4.0])
+                regs[d] = Monitor() if k is None else Monitor(k=k)
+                ident[d] = fresh(k)
+                emit("(new %d %s)" % (d, ktok(k)), "u", "r%d = Monitor(k=%r)" % (d, k))
+            elif kind == "info":
+                n = rng.randint(0, 99)
+                regs[r].info("msg%d" % n); infos[ident[r]].append(str(n))
+                emit("(info %d %d)" % (r, n), "u", "r%d.info('msg%d')" % (r, n))
+            elif kind == "slice":
+                n = len(recs[ident[r]])
+                bd = lambda: None if rng.random() < 0.3 else rng.randint(-n - 1, n + 1)
+                s_, e_, t = bd(), bd(), rng.choice([None, None, 1, 2, -1])
+                res = regs[r][slice(s_, e_, t)]
+                tk = fresh(kk[ident[r]]); recs[tk] = [dict(rc) for rc in recs[ident[r]][slice(s_, e_, t)]]
+                regs[d] = res; ident[d] = tk
+                emit("(slice %d %d %s %s %s)" % (d, r, idtok(s_), idtok(e_), idtok(t)), "u", "r%d = r%d[%r:%r:%r]" % (d, r, s_, e_, t))
+            elif kind == "lidx":
+                n = len(recs[ident[r]])
+                idx = [rng.randint(-n, n - 1) for _ in range(rng.randint(0, n + 1))] if n else []
+                res = regs[r][list(idx)]
+                tk = fresh(kk[ident[r]]); recs[tk] = [dict(recs[ident[r]][j]) for j in idx]
+                regs[d] = res; ident[d] = tk
+                emit("(lidx %d %d (%s))" % (d, r, " ".join(str(j) for j in idx)), "u", "r%d = r%d[%r]" % (d, r, idx))
+            elif kind == "add":
+                res = regs[r] + regs[b]
+                tk = fresh(kk[ident[r]])
+                recs[tk] = [dict(rc) for rc in recs[ident[r]]] + moved(recs[ident[b]], kk[ident[r]], kk[ident[b]])
+                infos[tk] = list(infos[ident[r]]) + list(infos[ident[b]])
+                regs[d] = res; ident[d] = tk
+                emit("(add %d %d %d)" % (d, r, b), "u", "r%d = r%d + r%d" % (d, r, b))
+                h("heap:add-%s" % ("self" if ident[r] == ident[b] else "other"))
+            elif kind in ("extend", "prepend"):
+                if ident[r] == ident[b]:
+                    continue                       # never with itself
+                getattr(regs[r], kind)(regs[b])
+                mv = moved(recs[ident[b]], kk[ident[r]], kk[ident[b]])
+                if kind == "extend":
+                    recs[ident[r]] = recs[ident[r]] + mv; infos[ident[r]] = infos[ident[r]] + list(infos[ident[b]])
+                else:
+                    recs[ident[r]] = mv + recs[ident[r]]; infos[ident[r]] = list(infos[ident[b]]) + infos[ident[r]]
+                emit("(%s %d %d)" % (kind, r, b), "u", "r%d.%s(r%d)" % (r, kind, b))
+            elif kind == "min":
+                try:
+                    p_ = regs[r].min(); e = ["p", pv_of(p_[0]), pv_of(p_[1])]
+                except ValueError:
+                    e = ["e", "value"]
+                emit("(min %d)" % r, e, "r%d.min() -> %s" % (r, show(e)))
+            elif kind == "get":
+                n = len(recs[ident[r]]); i = rng.randint(-n - 1, n)
+                try:
+                    p_ = regs[r][i]; e = ["p", pv_of(p_[0]), pv_of(p_[1])]
+                except IndexError:
+                    e = ["e", "index"]
+                emit("(get %d %d)" % (r, i), e, "r%d[%d] -> %s" % (r, i, show(e)))
+            elif kind == "handover":
+                s_ = rng.choice([4, 4, 5]); src = rng.randrange(4); new = rng.random() < 0.3
+                (solver.SetGenerationMonitor if s_ == 4 else solver.SetEvaluationMonitor)(regs[src], new=new) if rng.random() < 0.7 else \
+                    (solver.SetGenerationMonitor if s_ == 4 else solver.SetEvaluationMonitor)(regs[src], new)
+                if not new and ident[s_] != ident[src]:
+                    recs[ident[src]] = moved(recs[ident[s_]], kk[ident[src]], kk[ident[s_]]) + recs[ident[src]]
+                    infos[ident[src]] = list(infos[ident[s_]]) + infos[ident[src]]
+                ident[s_] = ident[src]; sync()
+                emit("(handover %d %d %s)" % (s_, src, "true" if new else "false"), "u",
+                     "solver.Set%sMonitor(r%d, new=%r)" % ("Generation" if s_ == 4 else "Evaluation", src, new))
+                h("heap:handover-%s" % ("new" if new else "prepend"))
+            elif kind == "handnull":
+                new = rng.random() < 0.3
+                old = ident[4]
+                solver.SetGenerationMonitor(rng.choice([None, "Null", "Null()"]) if False else None, new=new)
+                tk = fresh(None)
+                if not new:
+                    recs[tk] = moved(recs[old], None, kk[old]); infos[tk] = list(infos[old])
+                ident[4] = tk; sync()
+                emit("(handnull 4 %s)" % ("true" if new else "false"), "u", "solver.SetGenerationMonitor(None, new=%r)" % new)
+            h("heap:" + kind)
+        except Exception as exc:
+            fs.append(("monitor", "Monitor/heap-program/op-%s/raises" % kind, "%s raised %r after %s" % (kind, exc, readable[-4:])))
+            break
+    # every register: contents, then the probes
+    def snap(m):
+        return ["d", [pv_of(v) for v in m.x], [pv_of(v) for v in m.y], [idtok(i) for i in m.id],
+                [s_[3:] if s_.startswith("msg") else s_ for s_ in m.get_info()], ktok(m.k)]
+    broken = bool(fs)
+    for r in range(HREG):
+        if broken:
+            break
+        sn = snap(regs[r]); want = recs[ident[r]]
+        emit("(dump %d)" % r, sn, "dump r%d" % r)
+        if not (same_tok(sn[1], [rc["x"] for rc in want]) and same_tok(sn[2], [rc["y"] for rc in want])
+                and sn[3] == [idtok(rc["id"]) for rc in want] and sn[4] == infos[ident[r]]):
+            fs.append(("monitor", "Monitor/aliasing/contents-changed-by-an-operation-on-another-monitor",
+                       "r%d holds %s, the operations on it recorded x=%s y=%s id=%s info=%s (program: %s)"
+                       % (r, show(sn), show([rc["x"] for rc in want]), show([rc["y"] for rc in want]), [rc["id"] for rc in want], infos[ident[r]], "; ".join(readable)[-900:])))
+            broken = True
+    for r in range(HREG):
+        if broken:
+            break
+        tag = 100 + r
+        lens0 = [(len(m.x), len(m.y), len(m.id), len(m.get_info())) for m in regs]
+        regs[r]([float(tag)] if False else float(tag), float(tag)); regs[r].info(str(tag))
+        lens1 = [(len(m.x), len(m.y), len(m.id), len(m.get_info())) for m in regs]
+        emit("(probe %d %d)" % (r, tag), [[str(v) for v in t] for t in lens1], "probe r%d" % r)
+        for j in range(HREG):
+            grew = lens1[j] != lens0[j]
+            if grew != (ident[j] == ident[r]) or (grew and lens1[j] != tuple(v + 1 for v in lens0[j])):
+                fs.append(("monitor", "Monitor/aliasing/%s" % ("shares-a-list-with-another-monitor" if grew else "hand-over-lost"),
+                           "a record and an info line added through r%d %s r%d (lengths %r -> %r); program: %s"
+                           % (r, "show up in" if grew else "do not show up in", j, lens0[j], lens1[j], "; ".join(readable)[-900:])))
+                broken = True
+                break
+        h("heap:probe")
+    line = "C20 hprog (nreg %d) (ops (%s))" % (HREG, " ".join(ops))
+    return line, exp, fs, readable, hist
+
+
+# ------------------------------------------------------------------ file formats (Model/MungeFormats)
+def exc_enum(exc):
+    return {"TypeError": "type", "IndexError": "index", "ValueError": "value", "AttributeError": "attr"}.get(type(exc).__name__, "other:" + type(exc).__name__)
+
+
+def gen_fmt_steps(rng):
+    """recorded values as raw_to_converge may meet them: flat vectors of any (also different, also zero) length,
+    scalars, matrices; python floats incl. inf/nan"""
+    n = rng.choice([0, 1, 2, 3, 4])
+    def vec(lo=0):
+        return [gen_leaf(rng, rng.choice(["dyadic", "any"])) for _ in range(rng.randint(lo, 4))]
+    def mat():
+        rows = rng.randint(1, 3); c = rng.randint(0, 3)
+        ragged = rng.random() < 0.3
+        return [[gen_leaf(rng, "dyadic") for _ in range(rng.randint(0, 3) if ragged else c)] for _ in range(rows)]
+    first = rng.choice(["vec", "vec", "vec", "vec0", "sc", "mat"])
+    steps = []
+    for i in range(n):
+        if i == 0:
+            kind = first
+        elif first == "mat":
+            kind = rng.choice(["mat", "mat", "mat", "vec0", "vec", "sc"])
+        else:
+            kind = rng.choice(["vec", "vec", "vec", "vec", "vec0", "sc"]) if rng.random() < 0.3 else "vec"
+        if first == "vec" and rng.random() < 0.5 and kind == "vec":
+            steps.append([gen_leaf(rng, "dyadic") for _ in range(3)])      # rectangular trajectories
+        else:
+            steps.append(vec(1) if kind == "vec" else [] if kind == "vec0" else gen_leaf(rng, "dyadic") if kind == "sc" else mat())
+    return steps
+
+
+def run_fmt(rng):
+    from mystic import munge
+    steps = gen_fmt_steps(rng)
+    out = []
+    for fn in (munge.raw_to_converge, munge.raw_to_support):
+        try:
+            res = fn([(list(st) if isinstance(st, list) else st) for st in steps], [1.0] * len(steps))[0]
+            out.append(nest_tok(res, ftok))
+        except Exception as exc:
+            out.append(["e", exc_enum(exc)])
+    fs = []
+    # the property: a non-empty rectangular trajectory of flat vectors survives both formats
+    if steps and all(isinstance(st, list) and st and all(is_scalar(v) for v in st) for st in steps) and len({len(st) for st in steps}) == 1:
+        want = [pv_of(st)[1:] for st in steps]
+        try:
+            conv = [[c[0] for c in row] for row in out[0]]
+            sup = [[out[1][j][i][0] for j in range(len(steps[0]))] for i in range(len(steps))]
+        except Exception:
+            conv = sup = None
+        if conv is None or not same_tok(conv, want) or not same_tok(sup, want):
+            fs.append(("monitor", "munge.raw_to_converge/rectangular-trajectory-not-recovered", "steps %r -> converge %s support %s" % (steps, show(out[0]), show(out[1]))))
+    line = "C20 fmt (steps (%s))" % " ".join(tstr(pv_of(st)) for st in steps)
+    return line, out, fs, ["raw_to_converge / raw_to_support of %r" % (steps,)]
+
+
+def run_loghist(rng, tmpdir, tag):
+    """a LoggingMonitor with an interval (gaps in the iteration numbers), ids, k; the file through logfile_reader,
+    read_trajectories and read_history; the monitor's ids through read_trajectories(monitor, iter=True)"""
+    from mystic import munge
+    from mystic.monitors import LoggingMonitor
+    path = os.path.join(tmpdir, "lh_%s.txt" % tag)
+    k = rng.choice([None, None, 2, 0.5, -1, 4.0])
+    iv = rng.choice([0, 1, 1, 2, 2, 3, 4, 5])
+    dim = rng.choice([1, 2, 3])
+    ragged = rng.random() < 0.25
+    kw = {} if k is None else {"k": k}
+    m = LoggingMonitor(iv, path, **kw)
+    calls = []; fs = []
+    if rng.random() < 0.3:
+        m.info("a comment line   with blanks")
+    for _ in range(rng.choice([0, 1, 2, 3, 5, 7, 9])):
+        x = [gen_leaf(rng, rng.choice(["dyadic", "any"])) for _ in range(rng.randint(1, 3) if ragged else dim)]
+        if rng.random() < 0.1:
+            x = x[0]
+        y = dyadic(rng, -8, 8, 6) if rng.random() < 0.8 else rng.choice([INF, -INF, NAN, 0.0, -0.0])
+        i = None if rng.random() < 0.5 else rng.randint(0, 2)
+        m(list(x) if isinstance(x, list) else x, y, i) if rng.random() < 0.5 else m(x, y, id=i)
+        calls.append((pv_of(x), pv_of(y), i))
+    readable = ["LoggingMonitor(%r, k=%r); %d calls" % (iv, k, len(calls))]
+    try:
+        step, param, cost = munge.logfile_reader(path, iter=True)
+        rows = [["w", str(int(st[0])), idtok(st[1]) if len(st) > 1 else "none", pv_of(co), pv_of(pa)] for st, pa, co in zip(step, param, cost)]
+        t2 = munge.read_trajectories(path, iter=True)
+        if [tuple(a) for a in t2[0]] != [tuple(a) for a in step] or not same_tok(nest_tok(t2[1], ftok), nest_tok(param, ftok)):
+            fs.append(("monitor", "read_trajectories(logfile)/differs-from-logfile_reader", "%r vs %r" % (t2, (step, param, cost))))
+        # the property: the rows are the calls at the iterations divisible by the interval, unchanged
+        wantrows = [["w", str(j), idtok(c[2]), c[1], c[0] if c[0][0] != "s" else ["v", c[0][1]]] for j, c in enumerate(calls) if iv and j % iv == 0]
+        if not same_tok(rows, wantrows):
+            fs.append(("monitor", "logfile/rows-not-the-calls-at-the-logged-iterations", "interval %r, %d calls: file rows %s, expected %s" % (iv, len(calls), show(rows), show(wantrows))))
+    except Exception as exc:
+        fs.append(("monitor", "logfile_reader/raises", "%r" % (exc,))); rows = ["e", exc_enum(exc)]
+    try:
+        ids, params, cost = munge.read_history(path, iter=True)
+        hist = ["h", [[str(int(t[0]))] if len(t) == 1 else [str(int(t[0])), idtok(t[1])] for t in (ids or [])], nest_tok(params, ftok)]
+        if [tuple(t) for t in (ids or [])] != [tuple(t) for t in step]:
+            fs.append(("monitor", "read_history(logfile)/iterations-changed", "logfile_reader %r, read_history %r" % (step, ids)))
+    except Exception as exc:
+        hist = ["e", "any"]
+    # ids of the monitor itself
+    try:
+        tr = munge.read_trajectories(m, iter=True)
+        pid = [[str(int(t[0]))] if len(t) == 1 else [str(int(t[0])), idtok(t[1])] for t in tr[0]]
+    except Exception as exc:
+        pid = ["e", exc_enum(exc)]
+    line = "C20 loghist (k %s) (iv %d) (calls (%s))" % (ktok(k), iv, " ".join("(%s %s %s)" % (tstr(c[0]), tstr(c[1]), idtok(c[2])) for c in calls))
+    line2 = "C20 pidsl (ids (%s)) (n %d)" % (" ".join(idtok(c[2]) for c in calls), len(calls))
+    try:
+        os.remove(path)
+    except OSError:
+        pass
+    return line, (rows, hist), line2, pid, fs, readable
+
+
+def null_checks(tmpdir):
+    """Null monitors: nothing is written, an empty history is read (implementation only)"""
+    from mystic import munge
+    from mystic.monitors import Null, Monitor
+    from mystic.tools import isNull
+    fs = []
+    if not (isNull(Null) and isNull(Null()) and not isNull(Monitor())):
+        fs.append(("monitor", "tools.isNull/wrong", "isNull(Null)=%r isNull(Null())=%r isNull(Monitor())=%r" % (isNull(Null), isNull(Null()), isNull(Monitor()))))
+    if munge.read_history(Null()) != ([], []) or munge.read_history(Null(), iter=True) != ([], [], []):
+        fs.append(("monitor", "read_history(Null())/not-empty", "%r" % (munge.read_history(Null(), iter=True),)))
+    for w in ("write_raw_file", "write_support_file", "write_converge_file"):
+        for arg in (Null(), Null):
+            path = os.path.join(tmpdir, "null_%s.py" % w)
+            getattr(munge, w)(arg, path)
+            if os.path.exists(path):
+                fs.append(("monitor", "%s/Null-monitor-written" % w, "%s(Null) created a file" % w)); os.remove(path)
+    e = Monitor()
+    if munge.read_history(e, iter=True) != (None, [], []) or munge.read_trajectories(e, iter=True) != ([], [], []):
+        fs.append(("monitor", "read_history(empty monitor)/wrong", "%r %r" % (munge.read_history(e, iter=True), munge.read_trajectories(e, iter=True))))
+    return fs
+
+
+# ------------------------------------------------------------------ CustomMonitor
+CM_NAMES = ["x", "y", "e", "d", "g"]
+
+
+def run_cmon(rng):
+    """a CustomMonitor with 1-5 declared fields (0-2 of them positional), 0-6 calls; returns (request, expected
+    tokens, findings, readable)"""
+    from mystic.monitors import CustomMonitor
+    names = CM_NAMES[:rng.randint(1, 5)]
+    args = names[:rng.randint(0, min(2, len(names)))]
+    kws = [nm for nm in names if nm not in args] if rng.random() < 0.8 else []     # declared through **kwds, or args only
+    if not args and not kws:
+        kws = list(names)
+    declared = [nm for nm in names if nm in args or nm in kws]
+    sow = CustomMonitor(*args, **{nm: "doc " + nm for nm in kws})
+    calls = []; want = {nm: [] for nm in declared}; readable = ["CustomMonitor(%s)" % ", ".join(args + ["%s=..." % nm for nm in kws])]
+    numpy_ok = rng.random() < 0.5
+    for _ in range(rng.randint(0, 6)):
+        pos = [gen_x(rng, rng.choice([1, 2, 3]), numpy_ok)[0] if rng.random() < 0.6 else gen_y(rng, True, numpy_ok)[0] for _ in args]
+        kw = {nm: (gen_y(rng, True, numpy_ok)[0] if rng.random() < 0.6 else gen_x(rng, 2, numpy_ok)[0]) for nm in kws if rng.random() < 0.5}
+        pos = [float(v) if isinstance(v, np.ndarray) and v.ndim == 0 else v for v in pos]
+        kw = {nm: (float(v) if isinstance(v, np.ndarray) and v.ndim == 0 else v) for nm, v in kw.items()}
+        extra = {"zzz": 1.0} if rng.random() < 0.2 else {}
+        sow(*pos, **kw, **extra)
+        vals = dict(zip(args, pos)); vals.update(kw)
+        calls.append([tstr(pv_of(vals[nm])) if nm in vals else "none" for nm in declared])
+        for nm in vals:
+            want[nm].append(pv_of(vals[nm]))
+        readable.append("sow(%s)" % ", ".join([repr(v) for v in pos] + ["%s=%r" % kv for kv in list(kw.items()) + list(extra.items())]))
+    fs = []
+    got = [[pv_of(v) for v in getattr(sow, nm)] for nm in declared]
+    for nm, g in zip(declared, got):
+        # the property: field `nm` holds exactly the values supplied for it, in call order
+        if not same_tok(g, want[nm]):
+            fs.append(("monitor", "CustomMonitor/field-not-the-supplied-values", "field %s holds %s, supplied %s (%s)" % (nm, show(g), show(want[nm]), "; ".join(readable))))
+    line = "C20 cmon (n %d) (calls (%s))" % (len(declared), " ".join("(" + " ".join(c) + ")" for c in calls))
+    return line, got, fs, readable
+
+
 # ------------------------------------------------------------------ shard
 def run_shard(pid, seed, shard, ncases, tier, extra):
     common.import_mystic()
@@ -1010,18 +1725,48 @@ def run_shard(pid, seed, shard, ncases, tier, extra):
     try:
         cases = []
         only = (extra or {}).get("only")
-        ks = [only] if only is not None else range(ncases)
+        only_stream = (extra or {}).get("stream")
+
+        def stream_range(name, n):
+            """the cases of a side stream: all of them in a normal run, one of them when that one is replayed"""
+            if only_stream == name:
+                return [only]
+            return range(n) if only is None and not only_stream else ()
+        ks = () if only_stream else ([only] if only is not None else range(ncases))
         for k in ks:
             c, loglines = run_case(seed, shard, k, tier, tmpdir)
             cases.append(c)
             reqs.append(("prog", c, "C20 prog (nreg %d) (ops (%s))" % (NREG, " ".join(c.ops))))
             for l in loglines[:6]:
                 reqs.append(("logline", (c, l), "C20 logline (s %s)" % codes(l)))
+        for j in stream_range("heap", max(4, ncases // 3)):
+            rng = case_rng(PID + "/heap", seed, shard, j)
+            with quiet():
+                line, hexp, fs, readable, hh = run_hprog(rng, rng.choice([4, 8, 12, 20]))
+            reqs.append(("hprog", (hexp, fs, readable, hh, j), line))
+        for j in stream_range("fmt", max(4, ncases // 2)):
+            rng = case_rng(PID + "/fmt", seed, shard, j)
+            line, fexp, fs, readable = run_fmt(rng)
+            reqs.append(("fmt", (fexp, fs, readable, j), line))
+        for j in stream_range("loghist", max(4, ncases // 4)):
+            rng = case_rng(PID + "/loghist", seed, shard, j)
+            with quiet():
+                line, lexp, line2, pid, fs, readable = run_loghist(rng, tmpdir, "s%d_%d_%d" % (seed, shard, j))
+            reqs.append(("loghist", (lexp, fs, readable, j), line))
+            reqs.append(("pidsl", (pid, [], readable, j), line2))
+        if (only is None and not only_stream) or only_stream == "null":
+            for kind2, key, what in null_checks(tmpdir):
+                findings.append(Finding(kind2, key, what, {"seed": seed, "shard": shard, "stream": "null"}))
+            hist["null:checks"] = hist.get("null:checks", 0) + 1
+        for j in stream_range("cmon", max(4, ncases // 5)):
+            rng = case_rng(PID + "/cmon", seed, shard, j)
+            line, got, fs, readable = run_cmon(rng)
+            reqs.append(("cmon", (got, fs, readable, j), line))
         for j in range(max(4, ncases // 2)):
             rng = case_rng(PID + "/split", seed, shard, j)
             s = gen_split_string(rng)
             reqs.append(("split", s, "C20 split (s %s)" % codes(s)))
-        if shard == 0 and only is None:
+        if shard == 0 and only is None and not only_stream:
             # exhaustive: the model's slice arithmetic against CPython's `slice.indices` (all bounds incl. None)
             nmax = 4 if tier == "quick" else 6
             for n in range(nmax + 1):
@@ -1043,6 +1788,54 @@ def run_shard(pid, seed, shard, ncases, tier, extra):
             if r[0] != "ok" or r[1]["i"] != want:
                 findings.append(Finding("correspondence", "sliceIdx/differs-from-slice.indices", "n=%d [%r:%r:%r] python=%r model=%r" % (n, st, en, t, want, rep),
                                         {"n": n, "slice": [st, en, t], "request": line, "model": rep}))
+            continue
+        if kind == "hprog":
+            hexp, fs, readable, hh, j = payload
+            for key, v in hh.items():
+                hist[key] = hist.get(key, 0) + v
+            hist["heap:programs"] = hist.get("heap:programs", 0) + 1
+            case = {"seed": seed, "shard": shard, "stream": "heap", "case": j, "ops": readable, "request": line, "impl": [tstr(e) for e in hexp], "model": rep}
+            for kind2, key, what in fs:
+                findings.append(Finding(kind2, key, what, case))
+            if fs:
+                continue
+            got = r[1]["r"] if r[0] == "ok" else None
+            if got is None or len(got) != len(hexp):
+                findings.append(Finding("correspondence", "hprog/model-%s" % r[0], "model replied %r" % (rep[:300],), case))
+                continue
+            for jj, (g, e) in enumerate(zip(got, hexp)):
+                if not same_tok(g, e):
+                    findings.append(Finding("correspondence", "hprog/%s-diverges" % line.split("(ops (")[1].split("(")[jj + 1].split()[0] if False else "hprog/op-diverges",
+                                            "op %d (%s): model %s implementation %s" % (jj, readable[jj] if jj < len(readable) else "?", show(g), show(e)), case))
+                    break
+            continue
+        if kind in ("fmt", "loghist", "pidsl"):
+            fexp, fs, readable, j = payload
+            hist[kind + ":cases"] = hist.get(kind + ":cases", 0) + 1
+            case = {"seed": seed, "shard": shard, "stream": kind, "case": j, "ops": readable, "request": line, "impl": show(fexp, 2000), "model": rep}
+            for kind2, key, what in fs:
+                findings.append(Finding(kind2, key, what, case))
+            ok = r[0] == "ok"
+            if ok and kind == "fmt":
+                ok = same_tok(r[1]["conv"], fexp[0]) and same_tok(r[1]["sup"], fexp[1])
+                hist["fmt:" + ("error" if fexp[0][:1] == ["e"] else "ok")] = hist.get("fmt:" + ("error" if fexp[0][:1] == ["e"] else "ok"), 0) + 1
+            elif ok and kind == "loghist":
+                ok = same_tok(r[1]["rows"], fexp[0]) and (same_tok(r[1]["hist"], fexp[1]) or (fexp[1] == ["e", "any"] and r[1]["hist"][:1] == ["e"]))
+                hist["loghist:rows"] = hist.get("loghist:rows", 0) + (len(fexp[0]) if fexp[0][:1] != ["e"] else 0)
+            elif ok:
+                ok = same_tok(r[1]["s"], fexp)
+            if not ok:
+                findings.append(Finding("correspondence", "%s/diverges" % kind, "%s: model %s implementation %s" % ("; ".join(readable)[:300], rep[:600], show(fexp, 600)), case))
+            continue
+        if kind == "cmon":
+            got, fs, readable, j = payload
+            hist["cmon:monitors"] = hist.get("cmon:monitors", 0) + 1
+            hist["cmon:calls"] = hist.get("cmon:calls", 0) + len(readable) - 1
+            case = {"seed": seed, "shard": shard, "stream": "cmon", "case": j, "ops": readable, "request": line, "impl": tstr(got) if got else "()", "model": rep}
+            for kind2, key, what in fs:
+                findings.append(Finding(kind2, key, what, case))
+            if r[0] != "ok" or not same_tok(r[1]["f"], got):
+                findings.append(Finding("correspondence", "cmon/fields-diverge", "model %s implementation %s (%s)" % (rep, show(got), "; ".join(readable)), case))
             continue
         if kind == "split":
             want = [[str(ord(ch)) for ch in piece] for piece in payload.split("   ")]
@@ -1151,6 +1944,36 @@ def witnesses():
                                % "; ".join(lines), {"witness": "K5", "script": K5_SCRIPT}))
         elif not lines or not lines[0].startswith("K5: first ok"):
             out.append(Finding("monitor", "munge.read_raw_file/fresh-interpreter-probe-failed", "probe output: %r" % p.stdout[-500:], {"witness": "K5"}))
+        # POS: the position columns of a monitor with non-uniform npts
+        m = Monitor(npts=(2, 3)); m([float(v) for v in range(10)], 1.0)
+        try:
+            got = m.pos
+        except Exception as exc:
+            got = exc
+        if m._pos != [2, 3, 7, 8, 9] or got != [[[2.0, 3.0], [7.0, 8.0, 9.0]]]:
+            out.append(Finding("monitor", KEY_POS, "Monitor(npts=(2, 3)) after ([0.0 .. 9.0], 1.0): position columns %r (the layout [w0 w0 x0 x0 w1 w1 w1 x1 x1 x1] has them at [2, 3, 7, 8, 9]); .pos -> %r"
+                               % (m._pos, got), {"witness": "POS"}))
+        # CM: CustomMonitor keeps the caller's buffer
+        from mystic.monitors import CustomMonitor, LoggingMonitor
+        sow = CustomMonitor("x", "y"); buf = [1.0, 2.0]; sow(buf, 3.0); buf[0] = 9.0
+        if sow.x != [[1.0, 2.0]]:
+            out.append(Finding("monitor", KEY_CM, "sow = CustomMonitor('x', 'y'); buf = [1.0, 2.0]; sow(buf, 3.0); buf[0] = 9.0; sow.x == %r, recorded [[1.0, 2.0]]" % (sow.x,),
+                               {"witness": "CM"}))
+        # NPTS: + on a logging monitor drops npts
+        lm = LoggingMonitor(1, os.path.join(tmp, "c20w_npts.txt"), npts=(1, 1)); lm([1.0, 2.0, 3.0, 4.0], 1.0)
+        sm = lm + lm[0:0]
+        if sm._npts != (1, 1):
+            out.append(Finding("monitor", KEY_NPTS, "lm = LoggingMonitor(1, f, npts=(1, 1)) after ([1.0, 2.0, 3.0, 4.0], 1.0): (lm + lm[0:0])._npts == %r, .pos == %r (lm.pos == %r)"
+                               % (sm._npts, sm.pos, lm.pos), {"witness": "NPTS"}))
+        # RAG: records of different dimension in a support file
+        m = Monitor(); m([1.0, 2.0, 3.0], 1.0); m([4.0, 5.0], 2.0)
+        path = os.path.join(tmp, "c20w_rag.py")
+        munge.write_support_file(m, path)
+        got = munge.read_raw_file(path)[0]
+        forget_module(path)
+        if sum(len(row) for row in got) != 5:
+            out.append(Finding("monitor", KEY_RAG, "write_support_file(Monitor after ([1.0, 2.0, 3.0], 1.0), ([4.0, 5.0], 2.0)) -> params %r: the parameter 3.0 is not in the file" % (got,),
+                               {"witness": "RAG"}))
         # D3: 0-d array cost with k
         m = Monitor(k=2)
         try:
@@ -1194,15 +2017,26 @@ def main(tier, seed):
             "VerboseLoggingMonitor; k in {None, +-2^n, rounding values}; x as list/tuple/ndarray/ints/numpy scalars/scalar/matrix, "
             "y as float/int/numpy scalar/0-d array/vector; ids; inf/nan/-0.0/subnormal/1e+-300), each ending with a dump of every register, "
             "write_raw/support/converge_file + read_raw_file, read_history and the log file read back by logfile_reader. "
-            "non-trivial = the program contains at least one slice / list index / mask / + / extend / prepend on a non-empty history")
+            "non-trivial = the program contains at least one slice / list index / mask / + / extend / prepend on a non-empty history. "
+            "The programs also contain tuple indices (ints, slices, lists, nested tuples; oracle: rows x columns of the recorded list), accessor views (x/ix/ax, y/iy/ay, id, info), "
+            "measure views of monitors built with npts, and calls of the logging / verbose classes with all=False, best, k=True whose log rows and captured stdout lines are compared. "
+            "Further streams per shard: heap programs (6 registers: 4 monitors + a real solver's generation and evaluation monitor slots; new/call/info/slice/list index/+/extend/prepend/min/[i]/"
+            "SetGenerationMonitor/SetEvaluationMonitor hand-over, then a dump and a probe call through every register: exactly the registers holding the same object may grow), "
+            "CustomMonitors (1-5 fields, positional / keyword / unknown keyword values), raw_to_converge / raw_to_support on ragged, empty, scalar and matrix steps, "
+            "LoggingMonitor files with interval 0-5 (gaps), ids and comment lines read by logfile_reader / read_trajectories / read_history, _process_ids on monitor id lists, Null monitors")
     tb = ["Lean 4.33 kernel; axioms per theorem listed under coverage.theorems",
           "hand-written model Model/Monitor.lean tied to monitors.py / tools.py / munge.py by this bit-exact differential run only",
           "Python repr/eval (and import) round trip of floats incl. inf/nan: runtime, exercised through the real files",
           "the log-line theorem is about the model's split3; its agreement with str.split('   ') is checked on random strings and on every real log line",
-          "numpy fancy indexing is modelled as index resolution + homogeneity test (ValueError/IndexError order as observed)"]
+          "numpy fancy indexing is modelled as index resolution + homogeneity test (ValueError/IndexError order as observed)",
+          "numpy multi-axis (tuple) indexing is modelled for 1-d/2-d arrays, tuples of length <= 2 and first-component indexing (Model/MonitorViews.lean), tied to numpy by the tuple-index stream only",
+          "the heap model (Model/MonitorHeap.lean) has one level of cells (the four lists of a monitor object); it is tied to CPython object identity by the probe calls of the heap-program stream",
+          "verbose output is read back from captured stdout with a regular expression and eval (inf, nan, np)"]
     assumptions = ["recorded values are scalars, flat sequences or rectangular 2-d sequences of numbers (no deeper nesting)",
                    "k != 0; the cost round trip is exact only for k in {None, +-2^n} and costs in the normal range (F13 otherwise)",
                    "a monitor is never extended/prepended with itself",
+                   "tuple indices contain ints, slices, integer lists / arrays and nested tuples of ints (no boolean masks), at most 2 components on vector parameters",
+                   "verbose / logging intervals are non-negative integers, None or inf; costs of all=False monitors are not 0-d arrays",
                    "IEEE binary64 * and / agree between Lean Float and CPython/numpy"]
     return framework.finish(PID, tier, seed, t0, proof, run, rule, tb, assumptions, search_more=search_more)
 
@@ -1215,7 +2049,10 @@ def replay(path):
         for f in fs:
             print("%s [%s] %s" % (f["kind"], f["class_key"], f["what"]))
         return 0
-    out = run_shard(PID, case["seed"], case["shard"], 0, case.get("tier", "quick"), {"only": case.get("case", 0)})
+    extra = {"only": case.get("case", 0)}
+    if case.get("stream"):
+        extra["stream"] = {"pidsl": "loghist"}.get(case["stream"], case["stream"])
+    out = run_shard(PID, case["seed"], case["shard"], 0, case.get("tier", "quick"), extra)
     known = {e["class_key"] for e in framework.load_known(PID)}
     bad = 0
     for f in out["findings"]:
